@@ -122,6 +122,9 @@ def c17_config(prefix="C17/"):
     def env_call(I, env, method, args, kw):
         if env.kind == "BytesIO" and method == "getvalue":
             return env.data["content"]
+        if env.kind == "BytesIO" and method in ("tell", "seek", "read"):
+            from contracts.dimse_frag import _bytesio_call
+            return _bytesio_call(I, env, method, args, kw)
         return NotImplemented
     c.env_call = env_call
     return c
@@ -191,7 +194,10 @@ class RoundTripTask(Task):
         dsv = None
         if ds_kw:
             if I.choose(2, "data set") == 1:
-                dsv = bytesio_env(I, ghost_bytes(I, "dataset_bytes", 1)[2], "param-BytesIO")
+                _base, _n, _lb = ghost_bytes(I, "dataset_bytes", 1)
+                _pos = I.input("int", "stream_position")          # wherever the application left the stream
+                I.assume(z3.And(_pos.e >= 0, _pos.e <= _n))
+                dsv = bytesio_env(I, _lb, "param-BytesIO", _pos)
                 I.setattr(prim, ds_kw, dsv)
         # ---- primitive -> message
         msg = I.instantiate(I.repo.cls(f"{DM}:{self.cls}"), [], {})
@@ -202,6 +208,12 @@ class RoundTripTask(Task):
         cs = msg.fields["command_set"]
         elems = dict(cs.elems)
         I.ob(f"{P}/command-field-is-the-PS3.7-value", elems.get("CommandField") == COMMAND_FIELD[self.msg_name], detail=repr(elems.get("CommandField")))
+        if ds_kw:
+            # the receiver takes the data-set bytes that follow the command set only if this element announces them
+            # (decode_msg, C15/C16): the bytes survive the round trip only if it does exactly when there are bytes
+            cdt = elems.get("CommandDataSetType")
+            I.ob(f"{P}/the-command-set-announces-a-data-set-exactly-when-the-parameter-has-bytes",
+                 cdt is not None and _b(I.neg(I.eq(cdt, 0x0101))) == z3.BoolVal(dsv is not None), detail=repr(cdt))
         present = sorted(k for k in elems if k not in MESSAGE_LEVEL)
         I.ob(f"{P}/command-set-holds-exactly-the-parameters-that-were-given", present == sorted(k for k, v in given.items() if v is not None),
              detail=f"{present}")
@@ -232,6 +244,10 @@ class RoundTripTask(Task):
             I.ob(f"{P}/round-trip-keeps-every-parameter", _same(I, got, given[kw]), detail=f"{kw}: sent {given[kw]!r} got {got!r}")
         if ds_kw:
             I.ob(f"{P}/round-trip-keeps-the-data-set-bytes", _same_ds(I, I.getattr(prim2, ds_kw), dsv))
+
+
+def _b(x):
+    return z3.BoolVal(x) if isinstance(x, bool) else (x.e if hasattr(x, "e") else x)
 
 
 def raise_path_end():
